@@ -147,6 +147,11 @@ CRASH = ("panic", "abort", "segv")
 
 def norm_msg(msg):
     """Strip literals from a panic message so signatures survive input changes."""
+    # slice-index panics quote the source text: keep only the stable head
+    for cut in (" is not a char boundary", " is out of bounds of", " out of range for "):
+        i = msg.find(cut)
+        if i >= 0:
+            msg = msg[:i + len(cut)]
     msg = re.sub(r"`[^`]*`", "`_`", msg)
     msg = re.sub(r"'[^']*'", "'_'", msg)
     msg = re.sub(r"\"[^\"]*\"", "\"_\"", msg)
